@@ -317,6 +317,39 @@ def decide_classes(rep):
                        "brz-derivative-product", 0, kind="refinement-lost")
 
 
+def decide_empty(rep):
+    """F9 - the inferred type is Empty IFF the text is empty, for EVERY text (the clause of __infer_type's contract that C05 leans on).
+    Read off the body (compared with the reviewed form each run): the first executed statement rewrites the text with
+    re.sub(r1, repl, text), the next one returns (Empty, True) iff the result is '', and no other statement mentions _Type.Empty.
+    re.sub copies every character outside a match and writes repl for every match (R3): with a non-empty constant repl the result
+    is empty iff the text is (a non-empty text has a character that is either copied or inside a match that is rewritten to repl)."""
+    from contracts.f2_forms import FORMS
+    idx = extract.Index()
+    fi = idx.func(P + "__infer_type")
+    same_form = body_text(fi) == FORMS["__infer_type"]
+    body = [st for st in fi.node.body if not isinstance(st, ast.FunctionDef) and not (isinstance(st, ast.Expr) and isinstance(st.value, ast.Constant))]
+    ok = False
+    if len(body) >= 2 and isinstance(body[0], ast.Assign) and isinstance(body[0].value, ast.Call) and isinstance(body[1], ast.If):
+        c = body[0].value
+        is_sub = isinstance(c.func, ast.Attribute) and c.func.attr == "sub" and getattr(c.func.value, "id", None) == "_re" and \
+            len(c.args) == 3 and isinstance(c.args[1], ast.Constant) and isinstance(c.args[1].value, str) and len(c.args[1].value) > 0 and \
+            isinstance(c.args[2], ast.Name) and c.args[2].id == "pattern" and not c.keywords and \
+            len(body[0].targets) == 1 and getattr(body[0].targets[0], "id", None) == "pattern"
+        t = body[1].test
+        is_test = isinstance(t, ast.Compare) and len(t.ops) == 1 and isinstance(t.ops[0], ast.Eq) and getattr(t.left, "id", None) == "pattern" and \
+            isinstance(t.comparators[0], ast.Constant) and t.comparators[0].value == ""
+        ret = body[1].body[0] if body[1].body else None
+        is_ret = isinstance(ret, ast.Return) and ast.unparse(ret.value) == "(_Type.Empty, True)"
+        others = sum(1 for n in ast.walk(fi.node) if isinstance(n, ast.Attribute) and n.attr == "Empty")
+        ok = is_sub and is_test and is_ret and others == 1
+    if ok and same_form:
+        rep.ob("F9: __infer_type returns (Empty, True) iff the text is empty, for every text (first two statements; non-empty replacement)",
+               "discharged", "ast-scan", 0, kind="lemma")
+    else:
+        rep.ob("F9: __infer_type no longer starts with `substitute; return Empty iff the result is empty`: argument lost", "unknown", "ast-scan", 0,
+               kind="refinement-lost")
+
+
 def text_type(t):
     """type of a raw pattern text on the real code; valid_class: the text is one bracket expression for re"""
     import re
